@@ -268,6 +268,8 @@ class ParseContext(ParserEngine):
 
     @contextmanager
     def nameset(self, name: str) -> Any:
+        # NOTE: what gets bound is the value of the expression in the block, None if it adds nothing
+        self.state.last_node = None
         yield
         self.state.nameset(name)
 
@@ -275,6 +277,7 @@ class ParseContext(ParserEngine):
 
     @contextmanager
     def nameadd(self, name: str) -> Any:
+        self.state.last_node = None
         yield
         self.state.nameadd(name)
 
@@ -282,11 +285,13 @@ class ParseContext(ParserEngine):
 
     @contextmanager
     def result(self) -> Any:
+        self.state.last_node = None
         yield
         self.state.nameset(_AT_)
 
     @contextmanager
     def resultadd(self) -> Any:
+        self.state.last_node = None
         yield
         self.state.nameadd(_AT_)
 
@@ -467,6 +472,8 @@ class ParseContext(ParserEngine):
 
     def void(self) -> Any:
         self.next_token()
+        # NOTE: the value of the empty expression; nothing is added to the CST
+        self.state.last_node = ()
         return ()
 
     _void = void
